@@ -1142,6 +1142,8 @@ class Executor(object):
             for ca in (1, 4, 2 ** 31, 2 ** 33):
                 for cb in (1, 4, 2 ** 31, 2 ** 33):
                     out.append(inst('mul_abs', a, b, rv(ca), rv(cb)))
+            out.append(inst('mul_abs', a, b, rv(2 ** 404), rv(2 ** 31)))
+            out.append(inst('mul_lower', a, b, rv(Fraction(1, 2 ** 400)), rv(Fraction(1, 2 ** 400))))
         elif opname == 'div':
             a, b = args
             if FP.is_num(z3.simplify(b)):
@@ -1150,6 +1152,10 @@ class Executor(object):
             for cd in (Fraction(1, 2), Fraction(1, 2 ** 33)):
                 for ca in (4, 2 ** 33):
                     out.append(inst('quot_abs', q, b, a, rv(cd), rv(ca)))
+            # divisors bounded away from zero by the threshold-not-extreme precondition (finding D8)
+            out.append(inst('quot_abs', q, b, a, rv(Fraction(1, 2 ** 400)), rv(2 ** 31)))
+            out.append(inst('quot_abs', q, b, a, rv(Fraction(1, 2 ** 400)), rv(4)))
+            out.append(inst('quot_abs', q, b, a, rv(Fraction(1, 2 ** 801)), rv(2 ** 31)))
         elif opname == 'sqrt':
             (a,) = args
             s_ = log.last_op.e
